@@ -12,3 +12,11 @@ Definition scale_sev_out (lam : R) (s : sev_out (T:=R)) : sev_out (T:=R) :=
                | Some (k, i, dn, dm) => Some (k, i, oscale lam dn, oscale lam dm)
                | None => None
                end |}.
+
+(* scaling of escape-field inputs and outputs *)
+From SSP Require Import Model.Esc.
+Definition scale_stars (lam : R) (stars : list (R * R * R * R)) : list (R * R * R * R) :=
+  map (fun q => let '(n, al, lo, up) := q in (lam * n, al, lo, up)) stars.
+Definition scale_esc (lam : R) (e : esc_out (T:=R)) : esc_out (T:=R) :=
+  {| e_dNs := map (oscale lam) (e_dNs e); e_dalpha := e_dalpha e;
+     e_dNr := map (oscale lam) (e_dNr e); e_dMr := map (oscale lam) (e_dMr e) |}.
